@@ -250,7 +250,9 @@ func (st *stream) recordBytesRead(n int) error {
 	}
 	st.lim -= int64(n)
 	if st.lim < 0 {
-		st.stream = nil // panic if we try to read again
+		// Fail if we try to read again. The stream itself must stay
+		// usable: whoever owns it still has to close or reset it.
+		st.stream.CloseRead()
 		return &connectionError{
 			code:    errH3FrameError,
 			message: "invalid HTTP/3 frame",
